@@ -90,6 +90,10 @@ inductive Op
   /-- `with edit_constant(obj): pass` — a reader of the class namespace (`objects(instance=False)`)
   that must not write to it -/
   | instBlock (i : IId)
+  /-- `C.param.watch(cb, [n])` / `obj.param.watch(cb, [n])` (then `unwatch`): watcher registration, a
+  consumer of the namespace with a code path of its own (`_register_watcher`) -/
+  | watchCls (c : CId) (n : Name)
+  | watchInst (i : IId) (n : Name)
   /-- `setattr(C, n, P(default=d[, bound hi]))`: class-level assignment of a *Parameter object* -/
   | clsSetParam (c : CId) (n : Name) (d : Int) (hi : Option Int)
   deriving Repr, DecidableEq
@@ -268,6 +272,18 @@ def step (s : St) : Op → St × Res
     match s.insts[i]? with
     | none => (s, .stuck)
     | some x => ((nsRead s x.cls).1, .ok)
+  | .watchCls c n =>
+    -- src: Parameters._register_watcher: `if parameter_name not in self_.cls.param: raise ValueError`
+    let (s1, pd) := nsRead s c
+    (s1, if (aget pd n).isSome then .ok else .valueError)
+  | .watchInst i n =>
+    -- the membership test is against the namespace of the class; a value watcher of an instance lives
+    -- in `obj._param__private.watchers` (no per-instance Parameter copy)
+    match s.insts[i]? with
+    | none => (s, .stuck)
+    | some x =>
+      let (s1, pd) := nsRead s x.cls
+      (s1, if (aget pd n).isSome then .ok else .valueError)
   | .clsSetParam c n d hi =>
     -- src: ParameterizedMetaclass.__setattr__, `else` branch (6653662): a Parameter value takes the
     -- `add_parameter` path — install, name and merge, roll back when the merge is rejected, clear the
